@@ -266,6 +266,7 @@ class EmitT:
             if n.startswith('llvm.memmove'): o.append('  memmove(%s, %s, %s);' % tuple(args[:3])); return
             if n.startswith('llvm.memset'): o.append('  memset(%s, %s, %s);' % tuple(args[:3])); return
             if n.startswith('llvm.'): return Emit.call(s, i, R, o)
+            if n == '__assert_fail': o.append('  VERIF_LIBASSERT();'); return
             if n in LIBCT:
                 o.append('  %s%s;' % (asg, LIBCT[n](args, s.cty(i.ty)))); return
             if i.callee.val in s.m.funcs or i.callee.val in s.m.decls:
@@ -294,7 +295,7 @@ def translate_typed(text, opts):
     protos, bodies, gdefs, ginits = [], [], [], []
     for name, d in m.decls.items():
         n = name[1:]
-        if n.startswith('llvm.') or n in LIBCT or n in ('memcpy', 'memset', 'memmove'): continue
+        if n.startswith('llvm.') or n in LIBCT or n in ('memcpy', 'memset', 'memmove', '__assert_fail'): continue
         protos.append(e.proto(name, d['ret'], [(t, '%a' + str(k)) for k, (t, _) in enumerate(d['args'])]) + ';')
     for name, f in m.funcs.items(): protos.append(e.proto(name, f['ret'], f['args']) + ';')
     for name, g in m.globals.items():
@@ -307,14 +308,11 @@ def translate_typed(text, opts):
         bodies.append(e.func(name, f))
     hdr = ['#include <stdint.h>', '#include <stddef.h>', '#include <string.h>', '#include <stdlib.h>',
            'typedef void (*verif_fn_t)(void); typedef uint8_t verif_fn_body_t;', '#include "verif_rt.h"']
-    res = '\n'.join(hdr) + '\n' + '\n'.join(e.all_typedefs()) + '\n' + '\n'.join(protos) + '\n' + '\n'.join(gdefs) + '\n' + '\n'.join(ginits) + '\n\n' + '\n\n'.join(bodies) + '\n'
-    return res
+    header = '#ifndef VERIF_UNIT_H\n#define VERIF_UNIT_H\n' + '\n'.join(hdr) + '\n' + '\n'.join(e.all_typedefs()) + '\n' + '\n'.join(protos) + '\n' + '\n'.join(gdefs) + '\n#endif\n'
+    body = '#include "%s"\n' % opts.get('hname', 'unit.h') + '\n'.join(ginits) + '\n\n' + '\n\n'.join(bodies) + '\n'
+    info = dict(functions=[n[1:] for n in m.funcs if not (omit and re.search(omit, n))],
+                omitted=[n[1:] for n in m.funcs if omit and re.search(omit, n)],
+                globals={n[1:]: dict(const=bool(g['const']), has_init=g['init'] is not None, ty=repr(g['ty'])) for n, g in m.globals.items()},
+                decls=[n[1:] for n in m.decls])
+    return header, body, info
 
-if __name__ == '__main__':
-    import argparse
-    ap = argparse.ArgumentParser()
-    ap.add_argument('ll'); ap.add_argument('-o', default='-')
-    ap.add_argument('--omit'); ap.add_argument('--ubchecks', action='store_true'); ap.add_argument('--memhook', action='store_true')
-    a = ap.parse_args()
-    txt = translate_typed(open(a.ll).read(), dict(omit=a.omit, ubchecks=a.ubchecks, memhook=a.memhook))
-    (sys.stdout if a.o == '-' else open(a.o, 'w')).write(txt)
